@@ -31,7 +31,7 @@ UNIT = dict(
              obls=["C17.V.dyn.varint_max"]),
     ] + [_v.fn_item(n, b, file=F, within=W, qual="postcard_dyn::ser::varint::", oblp=("C17.V.dyn.varint.varint_", "C17.V.dyn.varint.len_")) for n, b in _v.WIDTHS]
       + [zz_item(n, b) for n, b in [("i16", 16), ("i32", 32), ("i64", 64), ("i128", 128)]],
-    trailer="""
+    trailer_parts=[(["varint_u16", "zig_zag_i16"], """
 fn smoke_dynvarint() {
     let mut b16 = [0u8; 3];
     let r = varint_u16(300, &mut b16);
@@ -39,5 +39,5 @@ fn smoke_dynvarint() {
     let z = zig_zag_i16(-1);
     assert(z == 1);
 }
-""",
+""")],
 )
